@@ -5,6 +5,7 @@
 ** stand-alone file; after sf_close the descriptor is closed exactly when close_desc was true and no other descriptor changed.
 */
 #include "vh.h"
+#include "foreign.h"
 #include <dirent.h>
 #include <sys/wait.h>
 #include <sys/time.h>
@@ -50,13 +51,15 @@ static void cmp_obs (const char *fn, const char *route, const OBS *ref, const OB
 		vh_viol (vh_key ("C14|sf-info|%s|%s", fn, route), "SF_INFO differs: frames %lld/%lld rate %d/%d ch %d/%d format 0x%x/0x%x sections %d/%d seekable %d/%d (virtual I/O / %s)", (long long) ref->si.frames, (long long) o->si.frames, ref->si.samplerate, o->si.samplerate, ref->si.channels, o->si.channels, ref->si.format, o->si.format, ref->si.sections, o->si.sections, ref->si.seekable, o->si.seekable, route) ;
 	for (t = 0 ; t < T_N ; t++) if (o->got [t] >= 0 && (ref->got [t] != o->got [t] || ref->data [t] != o->data [t])) { vh_viol (vh_key ("C14|samples|%s|%s", fn, route), "%s read: %ld items via virtual I/O, %ld via %s%s", vh_tname [t], ref->got [t], o->got [t], route, ref->got [t] == o->got [t] ? " (data differs)" : "") ; break ; }
 	if (!pipe && ref->probes != o->probes) vh_viol (vh_key ("C14|seek-probes|%s|%s", fn, route), "6 seeks (SET/END/CUR) to positions derived from the frame count, each followed by a 16-frame read, give different results via virtual I/O and %s", route) ;
+	if (pipe == 2) return ;		/* a foreign file through a pipe: the property promises the samples, and metadata behind the audio data cannot be reached without seeking */
 	if (ref->strs != o->strs) vh_viol (vh_key ("C14|strings|%s|%s", fn, route), "string metadata differs between virtual I/O and %s", route) ;
 }
 
+static void routes_of (MEMF *pm, const char *fn, int format, int ch, int variant, int N) ;
 static void read_routes (int format, int ch, int variant)
-{	MEMF m ; SNDFILE *s ; SF_INFO si ; const char *fn = vh_fname (format) ; int maj = format & SF_FORMAT_TYPEMASK, N = 1800 + vh_rint (700), i, cap ; OBS ref, o ; char path [400] ; int raw = maj == SF_FORMAT_RAW ;
-	short *d = malloc (2 * N * ch) ; static unsigned char junk [5000] ;
-	for (i = 0 ; i < N * ch ; i++) d [i] = (short) (12000 * sin (i * 0.03) + (i * 7) % 300) ; for (i = 0 ; i < 5000 ; i++) junk [i] = (unsigned char) (i * 131 + 17) ;
+{	MEMF m ; SNDFILE *s ; const char *fn = vh_fname (format) ; int maj = format & SF_FORMAT_TYPEMASK, N = 1800 + vh_rint (700), i ;
+	short *d = malloc (2 * N * ch) ;
+	for (i = 0 ; i < N * ch ; i++) d [i] = (short) (12000 * sin (i * 0.03) + (i * 7) % 300) ;
 	memset (&m, 0, sizeof (m)) ; s = vh_open_w (&m, format, ch, 8000, NULL) ; if (!s) { free (d) ; return ; }
 	if (variant & 1) { sf_set_string (s, SF_STR_TITLE, "route title") ; sf_set_string (s, SF_STR_COMMENT, "route comment") ; }
 	sf_writef_short (s, d, N) ; sf_close (s) ; free (d) ;
@@ -77,11 +80,19 @@ static void read_routes (int format, int ch, int variant)
 		}
 	if (variant & 4) m.len = m.len > 200 ? m.len - 1 - vh_rint (150) : m.len ;		/* truncated tail: every route must agree on the outcome */
 	if (variant & 8) { long p = vh_rint ((int) (m.len < 120 ? m.len : 120)) ; m.d [p] ^= 0x55 ; }		/* damaged header byte */
+	routes_of (&m, fn, format, ch, variant, N) ;
+	mv_free (&m) ;
+}
+/* one file image through every route; format/ch are only used for header-less files (and, for library-written files, to decide which routes apply) */
+static void routes_of (MEMF *pm, const char *fn, int format, int ch, int variant, int N)
+{	MEMF m = *pm ; SNDFILE *s ; SF_INFO si ; int maj = format & SF_FORMAT_TYPEMASK, i, cap ; OBS ref, o ; char path [400] ; int raw = maj == SF_FORMAT_RAW ; static unsigned char junk [5000] ;
+	for (i = 0 ; i < 5000 ; i++) junk [i] = (unsigned char) (i * 131 + 17) ;
 	cap = N + 50 ;
 	/* reference: virtual I/O */
 	memset (&ref, 0, sizeof (ref)) ; memset (&si, 0, sizeof (si)) ; if (raw) { si.format = format ; si.channels = ch ; si.samplerate = 8000 ; } m.pos = 0 ;
 	{	int vb [256], va [256], nvb = fd_list (vb, 256), nva ;
-	s = sf_open_virtual (&MVIO, SFM_READ, &si, &m) ; if (s) { if (si.channels < 1 || si.channels > 64) { sf_close (s) ; mv_free (&m) ; return ; } observe (s, &si, &ref, 0, cap) ; sf_close (s) ; } else ref.err = sf_error (NULL) ;
+	s = sf_open_virtual (&MVIO, SFM_READ, &si, &m) ; if (s) { if (si.channels < 1 || si.channels > 64) { sf_close (s) ; return ; } observe (s, &si, &ref, 0, cap) ; sf_close (s) ; } else ref.err = sf_error (NULL) ;
+	if (variant & 16) { if (ref.opened) { format = ref.si.format ; maj = format & SF_FORMAT_TYPEMASK ; if (maj == SF_FORMAT_WAVEX) maj = SF_FORMAT_WAV ; } else maj = 0 ; }		/* a foreign file: the routes that apply follow from what it turned out to be */
 	nva = fd_list (va, 256) ; if (!same_fds (vb, nvb, va, nva)) vh_viol (vh_key ("C14|fd-table|virtual-io|%s", fn), "the set of open descriptors changed across sf_open_virtual / sf_close (the virtual route owns no descriptor)") ; }
 	vh_stat ("files", 1) ;
 	snprintf (path, sizeof (path), "%s/r_%d.dat", scratch, (int) getpid ()) ;
@@ -118,10 +129,10 @@ static void read_routes (int format, int ch, int variant)
 		if (s && closed != i) vh_viol (vh_key ("C14|close-desc|fd0|%s", i ? "true-but-left-open" : "false-but-closed"), "%s: sf_open_fd (0, close_desc=%d): descriptor 0 is %s after sf_close", fn, i, closed ? "closed" : "open") ;
 		}
 	/* embedded at offset k (containers that support it) */
-	if ((maj == SF_FORMAT_WAV || maj == SF_FORMAT_WAVEX || maj == SF_FORMAT_AIFF || maj == SF_FORMAT_AU) && !(variant & 12))	/* a damaged or truncated file has no well-defined extent inside a larger file */
+	if ((maj == SF_FORMAT_WAV || maj == SF_FORMAT_WAVEX || maj == SF_FORMAT_AIFF || maj == SF_FORMAT_AU) && !(variant & (12 | 64)))	/* a damaged or truncated file has no well-defined extent inside a larger file */
 	{	int offs [5] = { 1, 7, 4096, 2 + vh_rint (4900), 2 + vh_rint (4900) } ; int k ;
 		for (k = 0 ; k < (vh_thorough ? 5 : 3) ; k++)
-		{	int fd ; SF_EMBED_FILE_INFO ei ; put_file (path, junk, offs [k], m.d, (long) m.len, junk + 100, 777) ;
+		{	int fd ; SF_EMBED_FILE_INFO ei ; if (k & 1) put_file (path, junk, offs [k], m.d, (long) m.len, m.d, m.len < 777 ? (long) m.len : 777) ; else put_file (path, junk, offs [k], m.d, (long) m.len, junk + 100, 777) ;		/* followed by noise, or by the start of another sound file of the same kind */
 			fd = open (path, O_RDONLY) ; if (fd < 0) continue ; lseek (fd, offs [k], SEEK_SET) ;
 			memset (&o, 0, sizeof (o)) ; memset (&si, 0, sizeof (si)) ;
 			s = sf_open_fd (fd, SFM_READ, &si, 0) ;
@@ -130,18 +141,18 @@ static void read_routes (int format, int ch, int variant)
 			}
 		}
 	/* non-seekable pipe: WAV, AIFF, AU with sample-granular encodings must deliver the same samples */
-	if ((maj == SF_FORMAT_WAV || maj == SF_FORMAT_AIFF || maj == SF_FORMAT_AU) && vh_sample_granular (format) && !(variant & 12) && ref.opened && m.len < 900000)
+	if ((maj == SF_FORMAT_WAV || maj == SF_FORMAT_AIFF || maj == SF_FORMAT_AU) && vh_sample_granular (format) && !(variant & (12 | 32)) && ref.opened && m.len < 900000)
 	{	int pfd [2] ; if (pipe (pfd) == 0)
 		{	fcntl (pfd [1], 1031, 1 << 20) ;
 			if (write (pfd [1], m.d, m.len) == m.len)
 			{	close (pfd [1]) ; memset (&o, 0, sizeof (o)) ; memset (&si, 0, sizeof (si)) ;
 				s = sf_open_fd (pfd [0], SFM_READ, &si, 0) ; if (s) { if (si.channels == ref.si.channels) observe (s, &si, &o, 1, (int) (ref.got [0] / ref.si.channels)) ; else { o.opened = 1 ; o.si = si ; } sf_close (s) ; } else o.err = sf_error (NULL) ;
-				cmp_obs (fn, "pipe", &ref, &o, 1, 0) ; vh_stat ("route_comparisons", 1) ; vh_stat ("pipe_reads", 1) ;
+				cmp_obs (fn, "pipe", &ref, &o, (variant & 16) ? 2 : 1, 0) ; vh_stat ("route_comparisons", 1) ; vh_stat ("pipe_reads", 1) ;
 				} else close (pfd [1]) ;
 			close (pfd [0]) ;
 			}
 		}
-	unlink (path) ; mv_free (&m) ;
+	unlink (path) ;
 }
 
 static void write_script (SNDFILE *s, int ch, int seed)
@@ -261,6 +272,19 @@ int main (int argc, char **argv)
 			}
 		if ((vh_fmts [f].major == SF_FORMAT_WAV || vh_fmts [f].major == SF_FORMAT_WAVEX || vh_fmts [f].major == SF_FORMAT_AIFF || vh_fmts [f].major == SF_FORMAT_AU) && vh_sample_granular (format) && c == 1 && vh_case ("%s tiny embedded files", vh_fname (format))) { vh_distinct (vh_fnv (0, &format, 4) ^ 0x7171) ; tiny_embedded (format, 1) ; }
 		for (rep = 0 ; rep < (vh_thorough ? 24 : 8) ; rep++) if (vh_case ("%s ch=%d write routes rep=%d", vh_fname (format), c, rep)) { vh_distinct (vh_fnv (0, &format, 4) ^ ((uint64_t) c << 33) ^ 0x77 ^ vh_rs) ; write_routes (format, c) ; }
+		}
+	/* files as other programs write them (harness/foreign.h): whole, and truncated / with one damaged byte */
+	for (f = 0 ; f < foreign_count () ; f++) for (v = 0 ; v < (vh_thorough ? 40 : 6) ; v++)
+	{	unsigned char *fd_ = NULL ; long fl = 0 ; const char *nm = foreign_make (f, &fd_, &fl) ; MEMF m ; char fnb [96] ; int variant = 16 | (v == 0 ? 0 : (v & 1) ? 4 : 8) | ((foreign_limits (f) & 1) ? 32 : 0) | ((foreign_limits (f) & 2) ? 64 : 0) ;
+		if (!vh_case ("foreign file %s read routes variant=%d rep=%d", nm, variant, v)) { free (fd_) ; continue ; }
+		vh_distinct (vh_fnv (0, nm, strlen (nm)) ^ ((uint64_t) variant << 40) ^ (v ? vh_rs : 0)) ; vh_stat ("foreign_files", 1) ;
+		if (v == 0) vh_sample ("foreign file %s (%ld bytes): via virtual I/O, path, fd close_desc 0/1, descriptor 0, embedded at offsets followed by noise or by another sound file, pipe; then truncated and damaged copies", nm, fl) ;
+		memset (&m, 0, sizeof (m)) ; m.d = fd_ ; m.len = fl ; m.cap = fl ;
+		if (variant & 4) m.len = m.len > 200 ? m.len - 1 - vh_rint (150) : m.len ;
+		if (variant & 8) { long p = vh_rint ((int) (m.len < 200 ? m.len : 200)) ; m.d [p] ^= 0x55 ; }
+		snprintf (fnb, sizeof (fnb), "foreign:%s", nm) ;
+		routes_of (&m, fnb, 0, 1, variant, 1100) ;
+		free (fd_) ;
 		}
 	rmdir (scratch) ;
 	return vh_finish () ;
